@@ -46,6 +46,8 @@ def gen_base(rng, tier, index):
     factory = index % 4 != 3
     workers = rng.choice([1, 2, 2, 3])
     quota = rng.choice([1, 1, 2, 3, 5]) if factory and index % 8 != 6 else None
+    if index % 5 == 2:
+        factory, quota = True, rng.choice([1, 2])        # replacements while joins of retiring workers time out
     ncalls = rng.randint(2, 4 if tier == "quick" else 6)
     calls = []
     for ci in range(ncalls):
